@@ -204,6 +204,9 @@ REWRITE = {
              "the stored lists and shard files form publication logs stamped by one counter, and for every history that completes every list document ever published references only shard files (with the recorded digest) and child lists "
              "published strictly before it; hence the crash state at ANY moment - the log cut at that stamp - resolves all references of every visible document. "
              "PARTIAL: that the real sessions' effect traces satisfy the effect-level discipline (temporary, close, rename; the dataset description file) is checked per run:")],
+    "C14": [("PARTIAL: the per-interface composition bounds (e.g. 3T+2+k shard files for the shuffled concurrent reader) are derived by hand and checked by runs",
+             "COMPOSED for the synchronous interface (c14_sync_interface_readahead): the shuffle buffer over the lazy chain of shards over any stream of paths satisfies (opened-1)*m <= yielded+shuffle at every moment (every shard >= m >= 1 examples). "
+             "PARTIAL: the composition bounds of the concurrent and async interfaces (e.g. 3T+2+k shard files for the shuffled concurrent reader) are derived by hand and checked by runs")],
     "C15": [("PARTIAL: early-drop liveness, the decoders/pyo3 layer and the epoch loop are validated on the implementation only:",
              "Termination (every pass takes at most 3n+min(T,n)+1 thread steps under every schedule) and early-drop liveness (after a drop in any state whatsoever every worker thread ends, so join returns) are theorems as well. "
              "PARTIAL: the decoders/pyo3 layer and the epoch loop are validated on the implementation only:")],
